@@ -12,7 +12,8 @@ from __future__ import annotations
 
 import ast
 
-from harness.common import TranslateError, src_text, ast_digest
+from harness.common import TranslateError, src_text, ast_digest, SRC
+from translate import c08_keys, c08_norm
 
 KINDS = {'ent_id': 'KEnt', 'solid_id': 'KSolid', 'face_id': 'KFace', 'group_id': 'KGroup', 'vis_id': 'KVis',
          'node_id': 'KNode'}
@@ -34,8 +35,51 @@ def _enclosing(tree: ast.AST):
     yield from walk(tree, None, None)
 
 
+def _enclosing_fn(node: ast.AST, parents: dict[int, ast.AST]):
+    while node is not None and not isinstance(node, (ast.FunctionDef, ast.AsyncFunctionDef)):
+        node = parents.get(id(node))
+    return node
+
+
+def _manager_escapes(rel: str, tree: ast.Module, parents: dict[int, ast.AST]) -> None:
+    """Fail-closed: an ID manager may only be the receiver of a method call (those calls are what the census
+    classifies), be created in VMF.__init__, or be read (membership, len, iteration).  A manager that is bound to
+    a local name, passed to a function, stored or returned could be released through the alias without the census
+    seeing it.  Attributes of the same name that a class declares as a plain field (Solid.group_id: an integer)
+    are not managers."""
+    fields = {c.name: {st.target.id for st in c.body if isinstance(st, ast.AnnAssign) and isinstance(st.target, ast.Name)
+                       and 'IDMan' not in ast.unparse(st.annotation)}
+              for c in ast.walk(tree) if isinstance(c, ast.ClassDef)}
+    for cls, fn, node in _enclosing(tree):
+        if not (isinstance(node, ast.Attribute) and node.attr in KINDS):
+            continue
+        if node.attr in fields.get(cls, ()) and isinstance(node.value, ast.Name) and node.value.id == 'self':
+            continue
+        p = parents.get(id(node))
+        if isinstance(node.ctx, ast.Store):
+            if cls == 'VMF' and fn == '__init__' and isinstance(p, ast.Assign) and isinstance(p.value, ast.Call):
+                continue
+            raise TranslateError(f'{rel}:{node.lineno}: the ID manager `{ast.unparse(node)}` is replaced outside VMF.__init__')
+        if isinstance(node.ctx, ast.Del):
+            raise TranslateError(f'{rel}:{node.lineno}: the ID manager `{ast.unparse(node)}` is deleted')
+        if isinstance(p, ast.Attribute) and p.value is node:
+            pp = parents.get(id(p))
+            if isinstance(pp, ast.Call) and pp.func is p:
+                continue            # a method call on the manager: classified by the census
+        if isinstance(p, ast.Compare) and any(node is c for c in p.comparators) and all(isinstance(o, (ast.In, ast.NotIn)) for o in p.ops):
+            continue
+        if isinstance(p, ast.Call) and isinstance(p.func, ast.Name) and p.func.id in ('len', 'sorted', 'list', 'set', 'frozenset', 'iter', 'max', 'min') \
+                and len(p.args) == 1 and p.args[0] is node and not p.keywords:
+            continue
+        if isinstance(p, (ast.For, ast.comprehension)) and p.iter is node:
+            continue
+        raise TranslateError(f'{rel}:{node.lineno}: the ID manager `{ast.unparse(node)}` is bound to a name, passed on or stored: '
+                             'releases through the alias could not be classified')
+
+
 def translate() -> tuple[str, dict]:
     releases: list[tuple[str, str, str, int]] = []   # kind, site, func, line
+    pending: list[tuple[str, str, str, int]] = []    # discard/remove calls on a manager: kind, class, func, line
     acquires: list[tuple[str, str, int]] = []
     id_stores: list[tuple[str, int, bool]] = []
     side: dict = {'files': {}}
@@ -46,8 +90,11 @@ def translate() -> tuple[str, dict]:
     class_kind: list[tuple[str, int, bool]] = []
     EXPECT = {'Side': {'KFace'}, 'Solid': {'KSolid'}, 'Entity': {'KEnt', 'KNode'}, 'VisGroup': {'KVis'}, 'EntityGroup': {'KGroup'}}
     trees = {}
+    parents_of: dict[str, dict] = {}
     for rel in ('vmf.py', 'instancing.py'):
         tree = trees[rel] = ast.parse(src_text(rel))
+        parents_of[rel] = c08_keys.parent_map(tree)
+        _manager_escapes(rel, tree, parents_of[rel])
         for cls, fn, node in _enclosing(tree):
             # calls on managers
             if isinstance(node, ast.Call) and isinstance(node.func, ast.Attribute) \
@@ -57,15 +104,7 @@ def translate() -> tuple[str, dict]:
                 if cls in EXPECT and meth in ('discard', 'remove', 'get_id'):
                     class_kind.append((f'{cls}.{fn}:{meth}:{kind}', node.lineno, kind in EXPECT[cls]))
                 if meth in ('discard', 'remove'):
-                    if fn == '__del__':
-                        site = 'SDel'
-                    elif fn in REMOVE_FUNCS:
-                        site = 'SRemoveFromMap'
-                    elif fn in ('__setitem__', '__delitem__', 'pop', 'popitem', 'clear') and kind == 'KNode':
-                        site = 'SKeyEdit'
-                    else:
-                        site = 'SOther'
-                    releases.append((kind, site, f'{cls}.{fn}', node.lineno))
+                    pending.append((kind, cls, fn, node.lineno))
                 elif meth == 'get_id':
                     acquires.append((kind, f'{cls}.{fn}', node.lineno))
                 elif meth in ('clear',):
@@ -79,10 +118,19 @@ def translate() -> tuple[str, dict]:
                 for tgt in node.targets:
                     if isinstance(tgt, ast.Attribute) and tgt.attr == 'id' and rel == 'vmf.py' and cls not in ('FixupValue', None):
                         v = node.value
+                        if isinstance(v, ast.Name):      # `new_id = <manager>.get_id(..)` ... `self.id = new_id`
+                            encl = _enclosing_fn(node, parents_of[rel])
+                            v = (c08_norm.single_assignment(encl, v.id) if encl is not None else None) or v
                         ok = (isinstance(v, ast.Call) and isinstance(v.func, ast.Attribute) and v.func.attr == 'get_id'
                               and isinstance(v.func.value, ast.Attribute) and v.func.value.attr in KINDS)
                         id_stores.append((f'{cls}.{fn}', node.lineno, ok))
-        side['files'][rel] = {'n_release': len(releases), 'n_acquire': len(acquires)}
+                    elif isinstance(tgt, (ast.Tuple, ast.List)) and rel == 'vmf.py' and cls not in ('FixupValue', None) \
+                            and any(isinstance(e, ast.Attribute) and e.attr == 'id' for e in ast.walk(tgt)):
+                        id_stores.append((f'{cls}.{fn} (unpacking)', node.lineno, False))
+            if isinstance(node, (ast.AugAssign, ast.AnnAssign)) and isinstance(node.target, ast.Attribute) and node.target.attr == 'id' \
+                    and rel == 'vmf.py' and cls not in ('FixupValue', None):
+                id_stores.append((f'{cls}.{fn} (in-place)', node.lineno, False))
+        side['files'][rel] = {'n_release': len(releases) + len(pending), 'n_acquire': len(acquires)}
         if rel == 'vmf.py':
             # IDMan digest (hand-modelled; a change escalates the correspondence budget)
             for n in tree.body:
@@ -92,16 +140,63 @@ def translate() -> tuple[str, dict]:
                 if isinstance(n, ast.ClassDef) and n.name == 'EntityFixup':
                     for f in n.body:
                         if isinstance(f, ast.FunctionDef) and f.name == '__init__':
-                            fix_pos = _fixup_init_test(f)
-                            fix_defer = _fixup_init_defers(f)
+                            fix_pos, fix_defer = _fixup_init_shape(f)
                         if isinstance(f, ast.FunctionDef) and f.name == '__setitem__':
                             fix_start = _fixup_set_start(f)
+    # A release inside a helper is classified by the functions that (transitively) call the helper.
+    callers: dict[str, set[tuple]] = {}
+    for rel, tree in trees.items():
+        for cls, fn, node in _enclosing(tree):
+            if isinstance(node, ast.Call) and fn is not None:
+                name = node.func.attr if isinstance(node.func, ast.Attribute) else node.func.id if isinstance(node.func, ast.Name) else None
+                if name is not None and name != fn:
+                    callers.setdefault(name, set()).add((cls, fn))
+
+    def sites_of(kind, fn, seen, depth=0) -> set[str]:
+        if fn == '__del__':
+            return {'SDel'}
+        if fn in REMOVE_FUNCS:
+            return {'SRemoveFromMap'}
+        if fn in ('__setitem__', '__delitem__', 'pop', 'popitem', 'clear') and kind == 'KNode':
+            return {'SKeyEdit'}
+        cs = {c for c in callers.get(fn, set()) if c[1] not in seen}
+        if not cs or depth >= 3 or not fn.startswith('_'):      # only private helpers are resolved through their callers
+            return {'SOther'}
+        out: set[str] = set()
+        for _, f2 in sorted(cs, key=str):
+            out |= sites_of(kind, f2, seen | {f2}, depth + 1)
+        return out
+    rel_rows = []
+    for kind, cls, fn, line in pending:
+        for site in sorted(sites_of(kind, fn, {fn})):
+            rel_rows.append((kind, site, f'{cls}.{fn}', line))
+    releases = rel_rows + releases          # `.clear()` rows collected above stay SOther
     if fix_pos is None or fix_start is None:
         raise TranslateError('EntityFixup.__init__/__setitem__ not recognised')
     if 'idman_digest' not in side:
         raise TranslateError('class IDMan not found')
+    # the managers are not touched by any other module (fail-closed: such a module would have to join the census)
+    for path in sorted(SRC.rglob('*.py')):
+        rel = path.relative_to(SRC).as_posix()
+        if rel in trees:
+            continue
+        text = path.read_text(encoding='utf8')
+        if any('.' + a in text for a in KINDS if a != 'group_id'):
+            for n in ast.walk(ast.parse(text)):
+                if isinstance(n, ast.Attribute) and n.attr in KINDS and n.attr != 'group_id':
+                    raise TranslateError(f'{rel}:{n.lineno}: `{ast.unparse(n)}`: an ID manager is used outside vmf.py / instancing.py, '
+                                         'which the census does not cover')
     copy_rows = _copy_census(trees['vmf.py'], trees['instancing.py'])
     node_realloc, node_in_del = _node_shape(trees['vmf.py'], acquires, releases)
+    # round 3: every way a key can enter an entity's private keyvalue dictionary (all modules that mention it)
+    key_trees = dict(trees)
+    for path in sorted(SRC.rglob('*.py')):
+        rel = path.relative_to(SRC).as_posix()
+        if rel not in key_trees and '._keys' in path.read_text(encoding='utf8'):
+            key_trees[rel] = ast.parse(path.read_text(encoding='utf8'))
+    key_rows, key_exposed, key_reads = c08_keys.keys_census(key_trees)
+    node_registers = c08_keys.node_setitem_registers(trees['vmf.py'])
+    fx_rows, fx_exposed, fx_reads = c08_keys.fixup_census(trees)
     lines = [
         '(* GENERATED by translate/c08_sites.py from /repo/src/srctools/vmf.py, instancing.py. Do not edit. *)',
         'From Coq Require Import ZArith List String.', 'Import ListNotations.', 'Open Scope string_scope.',
@@ -131,91 +226,196 @@ def translate() -> tuple[str, dict]:
         '].',
         f'Definition node_realloc_on_add : bool := {"true" if node_realloc else "false"}.',
         f'Definition node_release_in_del : bool := {"true" if node_in_del else "false"}.',
+        '(* every place that can put a key into an entity\'s private keyvalue dictionary: does it go through',
+        '   Entity.__setitem__ (where the nodeid is registered) or provably not concern the nodeid key? *)',
+        'Inductive kwsite := KwCtor | KwSetitem | KwOther.',
+        'Definition keys_write_sites : list (string * string * kwsite * bool) := [',
+        ';\n'.join('  ("%s", "%s", %s, %s)' % (f, d.replace('"', '""'), c, 'true' if ok else 'false') for f, d, c, ok, _ in key_rows),
+        '].',
+        f'Definition node_setitem_registers : bool := {"true" if node_registers else "false"}.',
+        '(* every place that can put a value into the index table of an EntityFixup: the constructor\'s accepting store and',
+        '   the lowest-unused-index store of __setitem__ (both recognised above), or an index-preserving duplicate *)',
+        'Definition fixup_write_sites : list (string * string * kwsite * bool) := [',
+        ';\n'.join('  ("%s", "%s", %s, %s)' % (f, d.replace('"', '""'), c, 'true' if ok else 'false') for f, d, c, ok, _ in fx_rows),
+        '].',
         '',
     ]
     side.update(releases=[list(r) for r in releases], acquires=[list(a) for a in acquires],
                 id_stores=[list(s) for s in id_stores], fixup_init_requires_positive=fix_pos, fixup_set_start=fix_start, fixup_init_defers=fix_defer,
                 idman_lower_guard=lower_guard, class_kind=[list(c) for c in class_kind],
-                copy_sites=[list(c) for c in copy_rows], node_realloc_on_add=node_realloc, node_release_in_del=node_in_del)
+                copy_sites=[list(c) for c in copy_rows], node_realloc_on_add=node_realloc, node_release_in_del=node_in_del,
+                keys_write_sites=[list(r) for r in key_rows], keys_exposed=key_exposed, keys_read_sites=key_reads,
+                node_setitem_registers=node_registers,
+                fixup_write_sites=[list(r) for r in fx_rows], fixup_exposed=fx_exposed, fixup_read_sites=fx_reads,
+                node_copy_registers=all(ok for _, _, c, ok, _ in key_rows if c == 'KwCtor'))
     return '\n'.join(lines), side
 
 
+def _self_attr(node: ast.AST, attr: str) -> bool:
+    return isinstance(node, ast.Attribute) and node.attr == attr and isinstance(node.value, ast.Name) and node.value.id == 'self'
+
+
+def _params(f: ast.FunctionDef) -> list[str]:
+    return [a.arg for a in f.args.posonlyargs + f.args.args][1:]
+
+
 def _lower_guard(cls: ast.ClassDef) -> bool:
-    """IDMan.discard / remove: `if element < self.search_pos` (False) or `if 0 < element < self.search_pos` (True)."""
+    """IDMan.discard / remove: is the hint lowered for every released element below it (False), or only for positive
+    ones (True)?  Semantic: the conditions on the path to the single store to `self.search_pos` are normalised to atoms
+    (`0 < e`, `e > 0`, `e >= 1`, nested ifs, either order, any parameter name, `min(self.search_pos, e)`)."""
     res = set()
     for f in cls.body:
         if isinstance(f, ast.FunctionDef) and f.name in ('discard', 'remove'):
-            ifs = [n for n in ast.walk(f) if isinstance(n, ast.If)]
-            if len(ifs) != 1 or ast.unparse(ifs[0].body[0]) != 'self.search_pos = element' or len(ifs[0].body) != 1:
-                raise TranslateError(f'IDMan.{f.name}: unrecognised body (line {f.lineno})')
-            t = ast.unparse(ifs[0].test)
-            if t == 'element < self.search_pos':
-                res.add(False)
-            elif t in ('0 < element < self.search_pos', 'element > 0 and element < self.search_pos',
-                       '0 < element and element < self.search_pos'):
-                res.add(True)
+            params = _params(f)
+            if len(params) != 1:
+                raise TranslateError(f'IDMan.{f.name}: expected one parameter, found {params}')
+            env = {params[0]: '$e'}
+            parents = c08_keys.parent_map(f)
+            if any(isinstance(n, ast.AugAssign) and _self_attr(n.target, 'search_pos') for n in ast.walk(f)):
+                raise TranslateError(f'IDMan.{f.name}: augmented assignment to the hint')
+            stores = [n for n in ast.walk(f) if isinstance(n, ast.Assign) and any(_self_attr(t, 'search_pos') for t in n.targets)]
+            if len(stores) != 1 or len(stores[0].targets) != 1:
+                raise TranslateError(f'IDMan.{f.name}: expected exactly one store to the hint (line {f.lineno})')
+            st = stores[0]
+            atoms = set(c08_norm.path_condition(st, f, parents, env))
+            v = st.value
+            if c08_norm.canon(v, env) == '$e':
+                pass
+            elif isinstance(v, ast.Call) and isinstance(v.func, ast.Name) and v.func.id == 'min' and not v.keywords \
+                    and sorted(c08_norm.canon(x, env) for x in v.args) == ['$e', 'self.search_pos']:
+                atoms.add(('lt', '$e', 'self.search_pos'))
             else:
-                raise TranslateError(f'IDMan.{f.name}: unrecognised hint test `{t}`')
+                raise TranslateError(f'IDMan.{f.name}: unrecognised new hint `{ast.unparse(v)}`')
+            below = {('lt', '$e', 'self.search_pos'), ('le', '$e', 'self.search_pos')}
+            if not atoms & below:
+                raise TranslateError(f'IDMan.{f.name}: the hint is not only lowered')
+            extra = atoms - below - {('pos', '$e')}
+            if extra:
+                raise TranslateError(f'IDMan.{f.name}: unrecognised extra condition on lowering the hint: {sorted(extra)}')
+            res.add(('pos', '$e') in atoms)
     if len(res) != 1:
         raise TranslateError('IDMan.discard/remove: guards differ or are missing')
     return res.pop()
 
 
-def _fixup_init_test(f: ast.FunctionDef) -> bool:
-    """Recognise `if fix.id not in used_indexes:` (False) or `if fix.id > 0 and fix.id not in used_indexes:` (True)."""
-    for node in ast.walk(f):
-        if isinstance(node, ast.If):
-            t = node.test
-            src = ast.unparse(t)
-            if src == 'fix.id not in used_indexes':
-                return False
-            if src in ('fix.id > 0 and fix.id not in used_indexes', 'fix.id >= 1 and fix.id not in used_indexes',
-                       '0 < fix.id and fix.id not in used_indexes'):
-                return True
-            raise TranslateError(f'EntityFixup.__init__: unrecognised acceptance test `{src}` (line {node.lineno})')
-    raise TranslateError('EntityFixup.__init__: no acceptance test found')
+def _stores_into(stmts: list[ast.stmt], attr: str) -> list[ast.Assign]:
+    return [n for st in stmts for n in ast.walk(st) if isinstance(n, ast.Assign)
+            and any(isinstance(t, ast.Subscript) and _self_attr(t.value, attr) for t in n.targets)]
 
 
-def _fixup_init_defers(f: ast.FunctionDef) -> bool:
-    """What happens to a value whose index is refused: collected (`<list>.append(fix)`) and re-inserted by a later
-    loop (True), or re-inserted at once with `self[fix.var] = fix.value` inside the first loop (False)."""
-    for node in ast.walk(f):
-        if isinstance(node, ast.For) and any(isinstance(n, ast.If) for n in node.body):
-            test = next(n for n in node.body if isinstance(n, ast.If))
-            if len(test.orelse) != 1:
-                raise TranslateError(f'EntityFixup.__init__: unrecognised handling of refused indexes (line {test.lineno})')
-            st = test.orelse[0]
-            src = ast.unparse(st)
-            if isinstance(st, ast.Expr) and isinstance(st.value, ast.Call) and isinstance(st.value.func, ast.Attribute) \
-                    and st.value.func.attr == 'append' and isinstance(st.value.func.value, ast.Name) \
-                    and ast.unparse(st.value.args[0]) == node.target.id:
-                lst = st.value.func.value.id
-                # a later loop over that list must re-insert through __setitem__
-                later = [n for n in f.body if isinstance(n, ast.For) and n.lineno > node.lineno
-                         and isinstance(n.iter, ast.Name) and n.iter.id == lst]
-                if len(later) != 1 or not any(isinstance(x, ast.Assign) and isinstance(x.targets[0], ast.Subscript)
-                                              and ast.unparse(x.targets[0].value) == 'self' for x in later[0].body):
-                    raise TranslateError(f'EntityFixup.__init__: refused values collected in `{lst}` are not re-inserted by a later loop')
+def _is_empty_call(v: ast.AST | None, names: tuple[str, ...]) -> bool:
+    if isinstance(v, ast.Call) and isinstance(v.func, ast.Name) and v.func.id in names and not v.args and not v.keywords:
+        return True
+    return (isinstance(v, ast.List) and not v.elts and 'list' in names) or (isinstance(v, ast.Dict) and not v.keys and 'dict' in names)
+
+
+def _fixup_init_shape(f: ast.FunctionDef) -> tuple[bool, bool]:
+    """EntityFixup.__init__: (the acceptance test requires a positive index, refused values are re-inserted after the
+    whole list has been scanned).  Independent of local names, of the order/spelling of the tests and of which branch
+    of the decision comes first."""
+    where = 'EntityFixup.__init__'
+    params = _params(f)
+    if not params:
+        raise TranslateError(f'{where}: no parameter')
+    src = params[0]
+
+    def iter_is(e: ast.AST, name: str) -> bool:
+        if isinstance(e, ast.Name):
+            if e.id == name:
                 return True
-            if isinstance(st, ast.Assign) and isinstance(st.targets[0], ast.Subscript) and ast.unparse(st.targets[0].value) == 'self':
-                return False
-            raise TranslateError(f'EntityFixup.__init__: unrecognised handling of refused indexes `{src}` (line {st.lineno})')
-    raise TranslateError('EntityFixup.__init__: first pass over the fixup list not found')
+            v = c08_norm.single_assignment(f, e.id)
+            return v is not None and iter_is(v, name)
+        return (isinstance(e, ast.Call) and isinstance(e.func, ast.Name) and e.func.id in ('list', 'tuple', 'iter')
+                and len(e.args) == 1 and not e.keywords and iter_is(e.args[0], name))
+    first = [n for n in f.body if isinstance(n, ast.For) and iter_is(n.iter, src)]
+    if len(first) != 1 or not isinstance(first[0].target, ast.Name) or first[0].orelse:
+        raise TranslateError(f'{where}: first pass over the fixup list not found')
+    loop = first[0]
+    env = {loop.target.id: '$fix'}
+    test, a, b = c08_norm.split_branches(loop.body, where)
+    sa, sb = _stores_into(a, '_fixup'), _stores_into(b, '_fixup')
+    if bool(sa) == bool(sb):
+        raise TranslateError(f'{where}: cannot tell the accepting branch (line {loop.lineno})')
+    atoms = c08_norm.conj_atoms(test, env, neg=not sa)
+    acc, ref = (a, b) if sa else (b, a)
+    seen = [x for x in atoms if x[0] == 'notin' and x[1] == '$fix.id']
+    if len(seen) != 1:
+        raise TranslateError(f'{where}: acceptance test without a single `index not in <seen>` condition: {sorted(atoms)}')
+    # lower bounds on the index: `0 < i` / `i >= 1` (atom pos), or `K <= i` / `K < i` with an integer literal K
+    bounds = []
+    for x in atoms - {seen[0]}:
+        if x == ('pos', '$fix.id'):
+            bounds.append(1)
+        elif x[0] in ('le', 'lt') and x[2] == '$fix.id' and x[1].lstrip('-').isdigit():
+            bounds.append(int(x[1]) + (x[0] == 'lt'))
+        else:
+            raise TranslateError(f'{where}: unrecognised acceptance condition {x}')
+    require_positive = bool(bounds) and max(bounds) >= 1
+    seen_name = seen[0][2]
+    if not _is_empty_call(c08_norm.single_assignment(f, seen_name), ('set',)):
+        raise TranslateError(f'{where}: `{seen_name}` is not a local set that starts empty')
+    # the accepting branch records the index and stores the value itself
+    adds = [n for st in acc for n in ast.walk(st) if isinstance(n, ast.Call) and isinstance(n.func, ast.Attribute)
+            and n.func.attr == 'add' and isinstance(n.func.value, ast.Name) and n.func.value.id == seen_name
+            and len(n.args) == 1 and c08_norm.canon(n.args[0], env) == '$fix.id']
+    if len(adds) != 1:
+        raise TranslateError(f'{where}: the accepted index is not recorded in `{seen_name}`')
+    store = (sa or sb)
+    if len(store) != 1 or c08_norm.canon(store[0].value, env) != '$fix':
+        raise TranslateError(f'{where}: the accepting branch does not store the value as it is')
+    # the refusing branch
+    if len(ref) != 1:
+        raise TranslateError(f'{where}: unrecognised handling of refused indexes (line {ref[0].lineno if ref else loop.lineno})')
+    st = ref[0]
+    if isinstance(st, ast.Expr) and isinstance(st.value, ast.Call) and isinstance(st.value.func, ast.Attribute) \
+            and st.value.func.attr == 'append' and isinstance(st.value.func.value, ast.Name) \
+            and len(st.value.args) == 1 and c08_norm.canon(st.value.args[0], env) == '$fix':
+        lst = st.value.func.value.id
+        if not _is_empty_call(c08_norm.single_assignment(f, lst), ('list',)):
+            raise TranslateError(f'{where}: `{lst}` is not a local list that starts empty')
+        later = [n for n in f.body if isinstance(n, ast.For) and n.lineno > loop.lineno and iter_is(n.iter, lst)]
+        if len(later) != 1 or not isinstance(later[0].target, ast.Name):
+            raise TranslateError(f'{where}: refused values collected in `{lst}` are not re-inserted by a later loop')
+        env2 = {later[0].target.id: '$fix'}
+        sets = [x for x in later[0].body if isinstance(x, ast.Assign) and len(x.targets) == 1 and isinstance(x.targets[0], ast.Subscript)
+                and isinstance(x.targets[0].value, ast.Name) and x.targets[0].value.id == 'self']
+        if len(sets) != 1 or len(later[0].body) != 1 or c08_norm.canon(sets[0].targets[0].slice, env2) != '$fix.var':
+            raise TranslateError(f'{where}: the later loop does not re-insert through self[<var>] = <value>')
+        return require_positive, True
+    if isinstance(st, ast.Assign) and len(st.targets) == 1 and isinstance(st.targets[0], ast.Subscript) \
+            and isinstance(st.targets[0].value, ast.Name) and st.targets[0].value.id == 'self' \
+            and c08_norm.canon(st.targets[0].slice, env) == '$fix.var':
+        return require_positive, False
+    raise TranslateError(f'{where}: unrecognised handling of refused indexes `{ast.unparse(st)}` (line {st.lineno})')
 
 
 def _fixup_set_start(f: ast.FunctionDef) -> int:
-    """Recognise `ind = K` followed by `while ind in indexes: ind += 1`."""
-    start = None
-    loop = False
-    for node in ast.walk(f):
-        if isinstance(node, ast.Assign) and ast.unparse(node.targets[0]) == 'ind' and isinstance(node.value, ast.Constant):
-            start = node.value.value
-        if isinstance(node, ast.While):
-            if ast.unparse(node.test) != 'ind in indexes' or ast.unparse(node.body[0]) != 'ind += 1' or len(node.body) != 1:
-                raise TranslateError(f'EntityFixup.__setitem__: unrecognised index search loop (line {node.lineno})')
-            loop = True
-    if start is None or not loop or not isinstance(start, int):
-        raise TranslateError('EntityFixup.__setitem__: index search not recognised')
+    """EntityFixup.__setitem__: start value K of the lowest-unused-index search; the searched container must be the
+    collection of the `.id`s of `self._fixup.values()`, and the counter must become the index of the new FixupValue."""
+    where = 'EntityFixup.__setitem__'
+    var, start, container, loop = c08_norm.search_loop(f, where)
+    if isinstance(container, ast.Name):
+        cdef = c08_norm.single_assignment(f, container.id)
+        if cdef is None:
+            raise TranslateError(f'{where}: searched container `{container.id}` is not a single-assignment local')
+        container = cdef
+    if isinstance(container, ast.Call) and isinstance(container.func, ast.Name) and container.func.id in ('set', 'frozenset', 'list', 'tuple') \
+            and len(container.args) == 1 and not container.keywords:
+        container = container.args[0]
+    if not (isinstance(container, (ast.SetComp, ast.ListComp, ast.GeneratorExp)) and len(container.generators) == 1):
+        raise TranslateError(f'{where}: searched container is not a comprehension over the stored values')
+    g = container.generators[0]
+    if g.ifs or not isinstance(g.target, ast.Name) or ast.unparse(g.iter) != 'self._fixup.values()' \
+            or c08_norm.canon(container.elt, {g.target.id: '$v'}) != '$v.id':
+        raise TranslateError(f'{where}: searched container is not the set of indexes in use')
+    calls = [n for n in ast.walk(f) if isinstance(n, ast.Call) and isinstance(n.func, ast.Name) and n.func.id == 'FixupValue'
+             and n.lineno >= loop.lineno]
+    if len(calls) != 1:
+        raise TranslateError(f'{where}: expected one FixupValue(...) after the search, found {len(calls)}')
+    c = calls[0]
+    idarg = c.args[2] if len(c.args) > 2 else next((k.value for k in c.keywords if k.arg == 'id'), None)
+    if not (isinstance(idarg, ast.Name) and idarg.id == var):
+        raise TranslateError(f'{where}: the new value does not take the searched index')
     return start
 
 
@@ -309,6 +509,46 @@ def _loop_bindings(fn: ast.FunctionDef) -> dict[str, ast.AST]:
     return out
 
 
+def _check_param_rebinding(cls: str, fn: ast.FunctionDef, param: str) -> None:
+    """The map parameter of a copy() method may only be re-bound by `if <param> is None: <param> = self.<map>` (then the
+    bare parameter still denotes the destination map); any other assignment to it is not understood."""
+    parents = c08_keys.parent_map(fn)
+    for n in ast.walk(fn):
+        if isinstance(n, ast.Name) and n.id == param and isinstance(n.ctx, (ast.Store, ast.Del)):
+            st = parents.get(id(n))
+            guard = parents.get(id(st))
+            ok = (isinstance(st, ast.Assign) and len(st.targets) == 1 and isinstance(st.value, ast.Attribute)
+                  and isinstance(st.value.value, ast.Name) and st.value.value.id == 'self' and st.value.attr in ('map', 'vmf')
+                  and isinstance(guard, ast.If) and any(st is x for x in guard.body)
+                  and ast.unparse(guard.test) in (f'{param} is None', f'not {param}', f'{param} == None'))
+            if not ok:
+                raise TranslateError(f'{cls}.copy: the map parameter `{param}` is re-bound at line {n.lineno} in a way that is not understood')
+
+
+def _resolve_iter(expr: ast.AST, fn: ast.FunctionDef, where: str) -> ast.Attribute:
+    """The attribute a loop iterates over, through `list(..)`-like wrappers and single-assignment locals; fail-closed."""
+    for _ in range(6):
+        if isinstance(expr, ast.Attribute):
+            return expr
+        if isinstance(expr, ast.Call) and isinstance(expr.func, ast.Name) and expr.func.id in ('list', 'tuple', 'sorted', 'reversed', 'iter') \
+                and expr.args:
+            expr = expr.args[0]
+            continue
+        if isinstance(expr, ast.Call) and isinstance(expr.func, ast.Attribute) and expr.func.attr in ('values', 'copy') and not expr.args:
+            expr = expr.func.value      # <dict>.values() / <list>.copy()
+            continue
+        if isinstance(expr, ast.Subscript) and isinstance(expr.slice, ast.Slice):
+            expr = expr.value           # <list>[:]
+            continue
+        if isinstance(expr, ast.Name):
+            v = c08_norm.single_assignment(fn, expr.id)
+            if v is not None:
+                expr = v
+                continue
+        break
+    raise TranslateError(f'{where}: cannot tell what `{ast.unparse(expr)}` (line {getattr(expr, "lineno", "?")}) iterates over')
+
+
 def _copy_census(vmf_tree: ast.Module, inst_tree: ast.Module) -> list[tuple[str, str, bool, int]]:
     """(kind, description, allocates in the destination map?, line) for every ID-relevant call in copy()/collapse_one."""
     cont = _id_containers(vmf_tree)
@@ -319,6 +559,7 @@ def _copy_census(vmf_tree: ast.Module, inst_tree: ast.Module) -> list[tuple[str,
         binds = _loop_bindings(fn)
         al = _aliases(fn)
         al.pop(param, None)
+        _check_param_rebinding(cls, fn, param)
         # `if vmf is None: vmf = self.vmf` makes the bare parameter the destination map as well.
         for call in (n for n in ast.walk(fn) if isinstance(n, ast.Call)):
             f = call.func
@@ -327,8 +568,8 @@ def _copy_census(vmf_tree: ast.Module, inst_tree: ast.Module) -> list[tuple[str,
                 rows.append((ID_CLASSES[f.id], f'{cls}.copy: {f.id}(...)', ok, call.lineno))
                 n_ctor += f.id == cls
             elif isinstance(f, ast.Attribute) and f.attr == 'copy' and isinstance(f.value, ast.Name) and f.value.id in binds:
-                it = binds[f.value.id]
-                if isinstance(it, ast.Attribute) and isinstance(it.value, ast.Name) and it.value.id == 'self':
+                it = _resolve_iter(binds[f.value.id], fn, f'{cls}.copy')
+                if isinstance(it.value, ast.Name) and it.value.id == 'self':
                     elem = cont.get(cls, {}).get(it.attr)
                     if elem is None:
                         continue        # a container of objects without IDs (planes, outputs, ...)
@@ -355,9 +596,9 @@ def _copy_census(vmf_tree: ast.Module, inst_tree: ast.Module) -> list[tuple[str,
             rows.append((ID_CLASSES[f.id], f'collapse_one: {f.id}(...)', ok, call.lineno))
         if not (isinstance(f, ast.Attribute) and f.attr == 'copy' and isinstance(f.value, ast.Name) and f.value.id in binds):
             continue
-        it = binds[f.value.id]
+        it = _resolve_iter(binds[f.value.id], fn, 'collapse_one')
         # iterables of the form <anything>.vmf.<attr> / <anything>.<attr> with attr a VMF container of ID objects
-        if isinstance(it, ast.Attribute) and it.attr in cont.get('VMF', {}):
+        if it.attr in cont.get('VMF', {}):
             elem = cont['VMF'][it.attr]
             callee_param, callee_idx = sigs[elem][1], sigs[elem][2]
             ok = _is_forward(_map_arg(call, callee_idx, (callee_param,)), dest)
@@ -384,6 +625,15 @@ def _node_shape(vmf_tree: ast.Module, acquires, releases) -> tuple[bool, bool]:
                                         and isinstance(t.slice, ast.Constant) and isinstance(t.slice.value, str)
                                         and t.slice.value.casefold() == 'nodeid'):
                                     in_del = True
+                        # the other spellings of the same deletion: self.pop('nodeid'[, default]), self.__delitem__('nodeid'),
+                        # self.clear() / self.clear_keys() (they all end in __delitem__('nodeid'))
+                        if isinstance(st, ast.Call) and isinstance(st.func, ast.Attribute) and isinstance(st.func.value, ast.Name) \
+                                and st.func.value.id == 'self':
+                            if st.func.attr in ('pop', '__delitem__') and st.args and isinstance(st.args[0], ast.Constant) \
+                                    and isinstance(st.args[0].value, str) and st.args[0].value.casefold() == 'nodeid':
+                                in_del = True
+                            if st.func.attr in ('clear', 'clear_keys') and not st.args:
+                                in_del = True
     return realloc, in_del
 
 
